@@ -350,12 +350,9 @@ type quarantined struct {
 //     observed disagreement, and without one the candidate stays an internal error.
 func (c *Check) settleQuarantine(e *E1, qs []quarantined) {
 	seen := map[string]bool{}
+	var pool []Vec          // candidates that are stable and fine when executed alone
+	var poolQ []quarantined // the same, with what was observed
 	for _, q := range qs {
-		key := q.first.Sig
-		if seen[key] {
-			continue
-		}
-		seen[key] = true
 		run := e.NewWorker(0)
 		seq := run(q.v)
 		stable := true
@@ -366,22 +363,40 @@ func (c *Check) settleQuarantine(e *E1, qs []quarantined) {
 		}
 		vv := q.v
 		if !stable {
-			c.Internal(fmt.Sprintf("violation candidate not reproducible in %s for %v, also when executed alone: %+v vs %+v", e.Part, e.Space.Describe(q.v), q.first, q.other))
+			if !seen[q.first.Sig] {
+				c.Internal(fmt.Sprintf("violation candidate not reproducible in %s for %v, also when executed alone: %+v vs %+v", e.Part, e.Space.Describe(q.v), q.first, q.other))
+			}
+			seen[q.first.Sig] = true
 			continue
 		}
 		if seq.Sig != "" {
 			c.Record(e.Part, seq, func() any { return e.Space.Describe(vv) })
 			continue
 		}
-		cases := append([]Vec{q.v}, q.batch...)
-		if len(cases) > 33 {
-			cases = cases[:33]
+		pool = append(pool, q.v)
+		poolQ = append(poolQ, q)
+	}
+	if len(pool) == 0 {
+		return
+	}
+	// the disturbed cases themselves are the best company for each other; a few neighbours from their batches are added
+	cases := append([]Vec(nil), pool...)
+	for _, q := range poolQ {
+		for k, v := range q.batch {
+			if k < 8 && len(cases) < 96 {
+				cases = append(cases, v)
+			}
 		}
-		if bad, desc := c.interference(e, cases, 3*time.Second); bad != nil {
-			c.Record(e.Part, *bad, func() any { return desc })
-		} else {
+	}
+	if bad, desc := c.interference(e, cases, 10*time.Second); bad != nil {
+		c.Record(e.Part, *bad, func() any { return desc })
+		return
+	}
+	for _, q := range poolQ {
+		if !seen[q.first.Sig] {
 			c.Internal(fmt.Sprintf("violation candidate not reproducible in %s for %v: %+v vs %+v (alone it is stable and fine; no interference reproduced)", e.Part, e.Space.Describe(q.v), q.first, q.other))
 		}
+		seen[q.first.Sig] = true
 	}
 }
 
